@@ -216,6 +216,18 @@ def main(argv=None):
         # translator validation mismatches (a goal failure on a clause that is a known finding is the finding itself)
         mm = []
         for x in r.get("validate", {}).get("mismatch", []):
+            if x.get("kind") == "exception-differs" and x.get("real", "None") != "None" and x.get("sym", "None") == "None":
+                # the real code raised on a concrete in-domain input for which the encoding has no exception path: replay it as a violation
+                rec = dict(property=prop, case=r["case"], body=r["body"], kwargs=r["kwargs_raw"], label=f"no-exception[{x['real'][:80]}]", values=x["values"])
+                h = hashlib.sha1(json.dumps(rec, sort_keys=True, default=str).encode()).hexdigest()[:10]
+                path = os.path.join(ROOT, "replays", f"{prop}-{h}.json")
+                json.dump(rec, open(path, "w"), indent=1, default=str)
+                ok, msg = replay_record(rec)
+                replayed_box[0] += 1
+                if ok:
+                    k = match_known(known, prop, r["case"], rec["label"])
+                    (known_hits if k else violations).append(((k if k else path), r["case"], rec["label"], msg))
+                    continue
             if x.get("kind") in ("const-goal", "float-goal"):
                 k = match_known(known, prop, r["case"], x.get("label", ""))
                 if k and known_demo_reproduces(k)[0]:
